@@ -613,6 +613,39 @@ func ForEach(t Tree, k int, al *Alphabet, f func(Rendering) bool) {
 	}
 }
 
+// ForEachGlobal calls f with the canonical rendering and with the file-wide
+// layout variants only (no per-slot deviations): CRLF, missing final newline,
+// tab indentation with CRLF; with full also CRLF without final newline, no
+// indentation, tab indentation. The number
+// of renderings does not depend on the size of the tree, so it is the layout
+// set used for large trees (size family of C02), where the per-slot deviations
+// of ForEach would cost O(size^2). Distinct source texts only; it stops when f
+// returns false.
+func ForEachGlobal(t Tree, al *Alphabet, full bool, f func(Rendering) bool) {
+	crlf := Dev{Slot: slotCRLF, Kind: "global.newline", Var: "crlf"}
+	nofinal := Dev{Slot: slotNoFinalNL, Kind: "global.final-newline", Var: "missing"}
+	none := Dev{Slot: slotIndent, Kind: "global.indent", Var: "none"}
+	tab := Dev{Slot: slotIndent, Kind: "global.indent", Var: "tab"}
+	seen := map[string]struct{}{}
+	sets := [][]Dev{nil, {crlf}, {nofinal}, {tab, crlf}}
+	if full {
+		sets = append(sets, []Dev{crlf, nofinal}, []Dev{none}, []Dev{tab})
+	}
+	for _, devs := range sets {
+		src, flushTab, ok := render(t, devs, al)
+		if !ok {
+			continue
+		}
+		if _, dup := seen[src]; dup {
+			continue
+		}
+		seen[src] = struct{}{}
+		if !f(Rendering{Src: src, Devs: append([]Dev(nil), devs...), FlushTab: flushTab}) {
+			return
+		}
+	}
+}
+
 // Canon is the canonical rendering.
 func Canon(t Tree) string {
 	s, _ := Render(t, nil, &Basic)
